@@ -479,3 +479,158 @@ class PairwiseUnit(GenUnit):
 
 
 UNITS = [ReduceUnit, ReduceAsyncUnit, AccumulateUnit, AccumulateAsyncUnit, TakewhileUnit, DropwhileUnit, FilterfalseUnit, PairwiseUnit]
+
+
+# ---- tee: _TeeState.fill (the only place the shared source is consumed) ------------------------------------------------
+
+from segvc.unit import ClassSpec, MethodUnit  # noqa: E402
+from specs import c09_lock as L  # noqa: E402
+from specs import c11_condition as E  # noqa: E402
+
+register_class("LockFrontC19", {}, source=("anyio/_core/_synchronization.py", "Lock"))  # __aenter__ / __aexit__ of the Lock front-end
+if "LockFrontC19" not in (getattr(CLASSES["Lock"], "bases", ()) or ()):
+    CLASSES["Lock"].bases = tuple(getattr(CLASSES["Lock"], "bases", ()) or ()) + ("LockFrontC19",)
+register_class("_TeeLink", {"value": OBJ, "next": RefT("_TeeLink"), "filled": BOOL}, source=(IT, "_TeeLink"))
+LINK = RefT("_TeeLink")
+register_class("_TeeState", {"iterator": SRC, "lock": RefT("Lock"), "$pulls": INT}, source=(IT, "_TeeState"))
+CLASSES["_TeeState"].ghost_fields = {"$pulls"}
+TEE_END = z3.Int("tee_end_marker")
+
+
+def link_guarantee(a, b):
+    """a filled link is immutable: its value and its successor never change again (every tee iterator standing on it
+    reads the same element and moves to the same next link)"""
+    x = z3.Int(a.st.uniq("x"))
+    return forall([x], z3.Implies(z3.And(z3.Select(a.arr("$", "alloc"), x), a.f("_TeeLink", "filled", x)), z3.And(b.f("_TeeLink", "filled", x), b.f("_TeeLink", "value", x) == a.f("_TeeLink", "value", x), b.f("_TeeLink", "next", x) == a.f("_TeeLink", "next", x))), patterns=[b.f("_TeeLink", "filled", x)])
+
+
+class TeeFillUnit(MethodUnit):
+    """_TeeState.fill(link): on return the link is filled; the shared source is pulled at most once, only while the
+    state's lock is held and only if the link is still unfilled then; the link receives exactly the next source element
+    (or the end marker) and a fresh successor link; a link that is already filled is never written again."""
+
+    props = ("C19",)
+    spec = ClassSpec("_TeeState")
+    method = "fill"
+    contract = None
+    trusted = ("E1", "E2", "A-private-iterator")
+    contracts = {"Lock.acquire": E.LOCK_ACQUIRE_S, "Lock.release": L.RELEASE}
+
+    def props_of(self, name):
+        return {"C19"}
+
+    def contract_for(self, qualname, ctx):
+        c = self.contracts.get(qualname)
+        if qualname == "Lock.release" and c is not None:
+            unit = self
+
+            class Wrap:
+                suspends = False
+
+                def apply(self_, ip, f, args, kwargs):
+                    try:
+                        return c.apply(ip, f, args, kwargs)
+                    finally:
+                        if ip.ctx.last_case.get(c.qualname) == "owner":
+                            unit.holding = False
+
+            return Wrap()
+        return c
+
+    def __init__(self):
+        super().__init__()
+        unit = self
+        self.globals = {
+            "_tee_end": Sym(TEE_END, OBJ),
+            "anext": Builtin("anext", lambda ip, it, default=None: AwaitableVal("contract", lambda: unit.pull(ip, it, default))),
+            "_TeeLink": ClassVal("_TeeLink", info=CLASSES["_TeeLink"]),
+        }
+
+    def dataclass_unset(self, ip, info, ref, name):
+        raise Unsupported(f"dataclass field {info.name}.{name} without a default")
+
+    def pull(self, ip, it, default):
+        st, s = ip.st, self.self_val.t
+        self.pulls.append((H(st, st.snapshot()), self.holding))
+        st.put("_TeeState", "$pulls", s, st.get("_TeeState", "$pulls", s) + 1)
+        lib.suspend(ip, "call:source.__anext__", None)
+        cn = SRC.cls
+        lo, hi = st.get(cn, "lo", it.t), st.get(cn, "hi", it.t)
+        if ip.ctx.branch(lo < hi, "source-has-more"):
+            v = z3.Select(st.get(cn, "data", it.t), lo)
+            st.put(cn, "lo", it.t, lo + 1)
+            self.pulled = v
+            return Sym(v, OBJ)
+        self.pulled = TEE_END
+        return default
+
+    def make_args(self, ip):
+        self.link = Sym(z3.Int("link"), LINK)
+        ip.st.assume(z3.And(self.link.t > 0, ip.st.allocated(self.link.t)))
+        return [self.link], types.SimpleNamespace()
+
+    def assume_state(self, ip):
+        h = H(ip.st)
+        s, cur = self.self_val.t, ip.ctx.cur.t
+        lk, it = h.f("_TeeState", "lock", s), h.f("_TeeState", "iterator", s)
+        d = h.dq(SRC.cls, it)
+        ip.st.assume(z3.And(s > 0, lk > 0, it > 0, ip.st.allocated(lk), ip.st.allocated(it), d.lo <= d.hi, TEE_END != 0))
+        x = z3.Int(ip.st.uniq("x"))
+        ip.st.assume(forall([x], z3.Implies(z3.And(d.lo <= x, x < d.hi), z3.Select(d.data, x) != TEE_END), patterns=[z3.Select(d.data, x)]))
+        for n, t in L.LOCK.assumed_terms(h, lk, cur) + L.LOCK.inv_terms(h, lk, cur):
+            ip.st.assume(t)
+        ip.st.assume(L.owner(h, lk) != cur)  # not re-entered by the task that is filling (one fill per task at a time)
+
+    def on_entry(self, ip, pre, a):
+        self.pulls = []
+        self.holding = False
+        self.pulled = None
+        self.pre = pre
+
+    def after_suspending_call(self, ip, contract, a, case, exc, ret=None):
+        if contract is E.LOCK_ACQUIRE_S:
+            self.holding = case.name == "acquired"
+
+    def resume_assumptions(self, ip, what, payload):
+        h, b = H(ip.st), self.before
+        s, cur = self.self_val.t, ip.ctx.cur.t
+        for f_ in ("lock", "iterator"):
+            ip.st.assume(h.f("_TeeState", f_, s) == b.f("_TeeState", f_, s))
+        lk, it = h.f("_TeeState", "lock", s), h.f("_TeeState", "iterator", s)
+        ip.st.assume(z3.And(ip.st.allocated(lk), ip.st.allocated(it), ip.st.allocated(self.link.t)))
+        for n, t in L.LOCK.assumed_terms(h, lk, cur) + L.LOCK.inv_terms(h, lk, cur):
+            ip.st.assume(t)
+        ip.st.assume(link_guarantee(b, h))  # rely: everybody's guarantee
+        d, db = h.dq(SRC.cls, it), b.dq(SRC.cls, it)
+        ip.st.assume(z3.And(d.hi == db.hi, d.data == db.data, d.lo >= db.lo, d.lo <= d.hi))
+        if self.holding:
+            # the source is consumed, and links are filled, only under the lock -- which this call holds
+            for n, t in L.lock_rely(b, h, lk, cur, None):
+                ip.st.assume(t)
+            ip.st.assume(d.lo == db.lo)
+            ip.st.assume(h.f("_TeeLink", "filled", self.link.t) == b.f("_TeeLink", "filled", self.link.t))
+            ip.st.assume(h.f("_TeeState", "$pulls", s) == b.f("_TeeState", "$pulls", s))
+
+    def guarantee(self, seg, now, s, cur):
+        return [("a_filled_link_is_never_written_again", link_guarantee(seg, now))]
+
+    def on_exit(self, ip, pre, a, exc, ret):
+        s = a.self
+        post = H(ip.st)
+        nm = "_TeeState.fill"
+        ln = self.link.t
+        if exc is not None:
+            ip.ctx.oblige(f"{nm}/post:only_a_cancellation_can_interrupt_a_fill", z3.BoolVal(exc.pycls is not None and exc.pycls.__name__ == "CancelledError"), "post")
+            return
+        ip.ctx.oblige(f"{nm}/post:the_link_is_filled_on_return", post.f("_TeeLink", "filled", ln), "post")
+        ip.ctx.oblige(f"{nm}/post:the_source_is_pulled_at_most_once_and_only_under_the_lock_for_a_link_that_is_still_unfilled", z3.And(z3.BoolVal(len(self.pulls) <= 1 and all(hd for _, hd in self.pulls)), *[z3.Not(hp.f("_TeeLink", "filled", ln)) for hp, _ in self.pulls]), "post")
+        if self.pulls:
+            v = self.pulled
+            nxt = post.f("_TeeLink", "next", ln)
+            ip.ctx.oblige(f"{nm}/post:the_link_gets_exactly_the_pulled_element_and_a_fresh_successor_unless_the_source_ended", z3.And(post.f("_TeeLink", "value", ln) == v, z3.If(v == TEE_END, z3.BoolVal(True), z3.And(nxt > 0, z3.Not(z3.Select(self.pre.arr("$", "alloc"), nxt)), z3.Not(post.f("_TeeLink", "filled", nxt))))), "post")
+            ip.ctx.oblige(f"{nm}/post:reports_a_yield_point_when_it_pulled", z3.BoolVal(ip.truth(ret) is True), "post")
+        if self.holding:
+            ip.ctx.oblige(f"{nm}/post:the_lock_is_released", z3.BoolVal(False), "post")
+
+
+UNITS += [TeeFillUnit]
